@@ -1046,6 +1046,168 @@ fn multiline_cells(ctx: &mut Ctx, idx: usize, r: &mut Rng) {
     ctx.case(family, &key, "pass", serde_json::json!({"query": query, "size": [w, h], "groups": ngroups, "rows": rows, "frames": frames.len(), "lines_of_full_table": plain_lines.len()}));
 }
 
+/* ---------- level 3: the real binary, stdout not a terminal, stderr a terminal ---------- */
+
+struct ChildOut {
+    stdout: Vec<u8>,
+    timed_out: bool,
+    spawn_error: Option<String>,
+}
+
+/// run the binary with stdin fed in bursts, stdout → a pipe, and stderr → either a pipe or the slave
+/// side of a pseudo-terminal of `rows`×`cols` (what `agrind q > out.txt` in an interactive shell has)
+fn run_binary(bin: &str, query: &str, bursts: &[Vec<u8>], stderr_pty: Option<(u16, u16)>) -> ChildOut {
+    use std::os::unix::io::FromRawFd;
+    use std::process::{Command, Stdio};
+    let mut master: libc::c_int = -1;
+    let mut slave: libc::c_int = -1;
+    let mut cmd = Command::new(bin);
+    cmd.arg(query).stdin(Stdio::piped()).stdout(Stdio::piped());
+    match stderr_pty {
+        Some((rows, cols)) => {
+            let ws = libc::winsize { ws_row: rows, ws_col: cols, ws_xpixel: 0, ws_ypixel: 0 };
+            let rc = unsafe { libc::openpty(&mut master, &mut slave, std::ptr::null_mut(), std::ptr::null(), &ws) };
+            if rc != 0 {
+                return ChildOut { stdout: vec![], timed_out: false, spawn_error: Some("openpty failed".into()) };
+            }
+            unsafe { libc::ioctl(slave, libc::TIOCSWINSZ, &ws) };
+            cmd.stderr(unsafe { Stdio::from_raw_fd(libc::dup(slave)) });
+        }
+        None => {
+            cmd.stderr(Stdio::piped());
+        }
+    }
+    let mut child = match cmd.spawn() {
+        Ok(c) => c,
+        Err(e) => return ChildOut { stdout: vec![], timed_out: false, spawn_error: Some(format!("{}", e)) },
+    };
+    if slave >= 0 {
+        unsafe { libc::close(slave) };
+    }
+    let (done, fired) = super::common::kill_after(child.id(), 15);
+    // drain stderr (pipe) / the pty master so the child never blocks on it
+    let drain_err = child.stderr.take().map(|mut e| {
+        std::thread::spawn(move || {
+            let mut sink = vec![];
+            let _ = e.read_to_end(&mut sink);
+        })
+    });
+    let drain_master = if master >= 0 {
+        let m = master;
+        Some(std::thread::spawn(move || {
+            let mut f = unsafe { std::fs::File::from_raw_fd(m) };
+            let mut buf = [0u8; 4096];
+            while let Ok(n) = f.read(&mut buf) {
+                if n == 0 {
+                    break;
+                }
+            }
+        }))
+    } else {
+        None
+    };
+    let mut out = child.stdout.take().unwrap();
+    let reader = std::thread::spawn(move || {
+        let mut v = vec![];
+        let _ = out.read_to_end(&mut v);
+        v
+    });
+    {
+        let mut stdin = child.stdin.take().unwrap();
+        for (i, b) in bursts.iter().enumerate() {
+            if i > 0 {
+                // longer than the 50 ms refresh interval: a terminal branch would redraw in between
+                std::thread::sleep(Duration::from_millis(150));
+            }
+            if stdin.write_all(b).is_err() {
+                break;
+            }
+            let _ = stdin.flush();
+        }
+        std::thread::sleep(Duration::from_millis(150));
+    }
+    let _ = child.wait();
+    done.store(true, Ordering::SeqCst);
+    let stdout = reader.join().unwrap_or_default();
+    if let Some(h) = drain_err {
+        let _ = h.join();
+    }
+    // the master read ends with EIO once the slave is closed by the child's exit
+    drop(drain_master);
+    ChildOut { stdout, timed_out: fired.load(Ordering::SeqCst), spawn_error: None }
+}
+
+/// `agrind q > file` from an interactive shell: stdout is NOT a terminal although stderr is one.
+/// The aggregate must be printed exactly once, at end of input, without control sequences — byte
+/// for byte what the same run prints with no terminal on any descriptor.
+fn stdout_pipe_stderr_tty(ctx: &mut Ctx) {
+    let cases: Vec<(&str, usize)> = vec![
+        ("* | json | count by k", 12),
+        ("* | json | count", 3),
+        ("* | json", 4),
+        ("* | json | count by k | sort by k", 10),
+        ("* | json | sum(n) as total by k", 9),
+        ("* | json | count by k, m", 6),
+    ];
+    let mine: Vec<(usize, &(&str, usize))> = cases.iter().enumerate().filter(|(i, _)| i % ctx.nshards == ctx.shard).collect();
+    if mine.is_empty() {
+        return;
+    }
+    let bin = match super::c15::ensure_binary() {
+        Ok(b) => b,
+        Err(e) => {
+            ctx.case("stdout-pipe-stderr-tty", "build", "viol", serde_json::json!({"class": "C16/harness", "what": format!("cannot build the binary: {}", e)}));
+            return;
+        }
+    };
+    for (i, (query, groups)) in mine {
+        let mut r = Rng::new(ctx.seed ^ (0xC16 + i as u64));
+        let nbursts = 2 + r.below(2);
+        let mut bursts: Vec<Vec<u8>> = vec![];
+        for b in 0..nbursts {
+            let mut s = String::new();
+            for j in 0..(6 + r.below(8)) {
+                // every group occurs in the first burst, so a terminal-style frame would already be tall
+                let g = if b == 0 && j < *groups { j } else { r.below(*groups) };
+                s.push_str(&format!("{{\"k\":\"group{:02}\",\"m\":\"{}\",\"n\":{}}}\n", g, ["GET", "PUT"][r.below(2)], r.range(1, 90)));
+            }
+            bursts.push(s.into_bytes());
+        }
+        let key = format!("stdout-pipe-stderr-tty:{}", i);
+        let info = serde_json::json!({"level": "binary", "query": query, "stdin": "pipe, in bursts 150 ms apart", "stdout": "pipe", "stderr": "pty 8 rows x 60 columns",
+            "bursts": bursts.iter().map(|b| b.iter().filter(|c| **c == b'\n').count()).collect::<Vec<_>>(), "input_hex": enc::hexb(&bursts.concat())});
+        let with_tty = run_binary(&bin, query, &bursts, Some((8, 60)));
+        let without = run_binary(&bin, query, &bursts, None);
+        if let Some(e) = with_tty.spawn_error.as_ref().or(without.spawn_error.as_ref()) {
+            ctx.case("stdout-pipe-stderr-tty", "", "skip", serde_json::json!({"why": format!("cannot run the binary on a pty: {}", e), "case": info}));
+            continue;
+        }
+        if with_tty.timed_out || without.timed_out {
+            ctx.case("stdout-pipe-stderr-tty", &key, "viol", serde_json::json!({"class": "C16/hang", "what": "the binary did not end after end of input", "case": info}));
+            continue;
+        }
+        let text = String::from_utf8_lossy(&with_tty.stdout).into_owned();
+        let aggregate = *query != "* | json";
+        let separators = text.lines().filter(|l| !l.is_empty() && l.chars().all(|c| c == '-')).count();
+        let what = if with_tty.stdout.contains(&0x1b) {
+            Some(format!("stdout (a pipe) contains {} ESC bytes: the terminal branch of the renderer ran because stderr is a terminal", with_tty.stdout.iter().filter(|b| **b == 0x1b).count()))
+        } else if with_tty.stdout != without.stdout {
+            Some("stdout (a pipe) differs from the stdout of the same run without any terminal".to_string())
+        } else if aggregate && separators != 1 {
+            Some(format!("the table was printed {} times", separators))
+        } else if without.stdout.is_empty() {
+            Some("nothing was printed".to_string())
+        } else {
+            None
+        };
+        match what {
+            Some(what) => ctx.case("stdout-pipe-stderr-tty", &key, "viol", serde_json::json!({"class": "C16/non-tty-stdout-drawn-as-terminal", "what": what,
+                "stdout_with_stderr_tty": c19::clip(&text, 1500), "stdout_without_terminal": c19::clip(&String::from_utf8_lossy(&without.stdout), 1500), "case": info})),
+            None => ctx.case("stdout-pipe-stderr-tty", &key, "pass", serde_json::json!({"query": query, "bytes": with_tty.stdout.len(), "bursts": bursts.len()})),
+        }
+    }
+}
+
 /* ---------- level 2c: row-oriented output modes on a terminal ---------- */
 
 fn row_modes(ctx: &mut Ctx, idx: usize, r: &mut Rng, fixed_w: Option<u16>) {
@@ -1256,6 +1418,7 @@ pub fn check(ctx: &mut Ctx) {
         let mut r = ctx.rng.fork();
         row_modes(ctx, ctx.shard * 1_000_000 + 700_000 + i, &mut r, None);
     }
+    stdout_pipe_stderr_tty(ctx);
     let n7 = ctx.budget(160, 3000);
     for i in 0..n7 {
         let mut r = ctx.rng.fork();
